@@ -135,6 +135,7 @@ bool vp_combinators(int x, int* p, vp_S sv, char const* str)
   r = param_matches(_, std::ref(x)) && param_matches(ANY(int), std::ref(x)) && param_matches(5, std::ref(x)) && r;
   r = param_matches(MEMBER_IS(&vp_S::m, vp_abs<1>{}), std::ref(sv)) && r;
   r = param_matches(re("a"), std::ref(str)) && r;
+  r = param_matches(eq(nullptr), std::ref(p)) && param_matches(ne(nullptr), std::ref(p)) && param_matches(nullptr, std::ref(p)) && r;
   std::string stdstr(str);
   r = param_matches(re("a"), std::ref(stdstr)) && r;
   return r;
